@@ -175,8 +175,8 @@ EXTRA = {
  'C06': ' (LS-1) the less table covers less(a + 1) for the largest alphabet symbol: its size is compared with the offsets collected from the look-ups in fmindex.rs.',
  'C07': ' (TS-12) Node::insert descends by the interval start (alone or as leading key component), which find() relies on when it prunes right subtrees.',
  'C08': ' (ET-1) in ShiftAnd every path from the mask look-up of a consumed symbol to the next look-up or a return passes the accept test unless the state was set to the constant 0.',
- 'C09': ' (PQ-1) every [T; N] symbol table of the Myers implementations has 256 entries and is indexed by the widened byte itself. (PO-10) the panic obligations of Ukkonen (with_capacity, find_all_end, Matches::next) are discharged or audited (15 audited); this found find_all_end overflowing for k = usize::MAX, repaired in /repo.',
- 'C10': ' (OB-1) FullMatches::path / LazyMatches::path_at reverse exactly the part of the caller vector that the *_reverse function appended (cleared first, or the sub-slice from the length observed before); this found path_at scrambling a vector that already held operations, repaired in /repo.',
+ 'C09': ' (PQ-1) every [T; N] symbol table of the Myers implementations has 256 entries and is indexed by the widened byte itself. (PO-10) the panic obligations of the Ukkonen entry points that receive the caller numbers (with_capacity, find_all_end) are discharged or audited; this found find_all_end overflowing for k = usize::MAX, repaired in /repo.',
+ 'C10': ' (OB-1) FullMatches::path / LazyMatches::path_at reverse exactly the part of the caller vector that the *_reverse function appended (cleared first, or the sub-slice from the length observed before); this found path_at scrambling a vector that already held operations, repaired in /repo. SB-11 of C09 (a pattern symbol always matches itself, whatever the ambiguity table holds) is part of this check.',
  'C11': ' (EP-1) Record::clear establishes, on every path, the state of every field that Record::is_empty tests (the end-of-input protocol of the readers).',
  'C13': ' TB-4 covers every function of bed.rs/gff.rs that builds a csv reader, not only Reader::new. (CO-1) the first eight columns gff::Writer::write serialises are the stored fields in the reader column order, taken directly from the fields.',
  'C14': ' (ZR-1) nothing reachable from <LogProb as Zero>::is_zero exponentiates, so the zero-aware maximum of Viterbi tests the logarithm itself.',
